@@ -31,7 +31,7 @@
 
 /* byte k of the text, or byte 0 when k is outside it: an index expression that is in bounds for every
  * ghost value (needed inside __CPROVER_old, which is evaluated unconditionally and admits no ?:) */
-#define NSTR_BYTE_OR_FIRST(p, k) (NSTR(p)->s[(k) * ((k) < (size_t) NSTR(p)->len)])
+#define NSTR_BYTE_OR_FIRST(p, k) (NSTR(p)->s[(k) & ((size_t) 0 - (size_t) ((k) < (size_t) NSTR(p)->len))])
 
 /* ---- url objects ----------------------------------------------------------------------- */
 /* URL_INV: the object, its text (non-empty state) and seven components each absent or an owned str */
@@ -55,6 +55,11 @@
 # define NET_CONTENT(x)
 #else
 # define NET_CONTENT(x) x
+#endif
+#ifdef NET_NO_FREES
+# define NET_FREES(x)
+#else
+# define NET_FREES(x) x
 #endif
 
 spif_bool_t spif_obj_set_class(spif_obj_t self, spif_class_t cls)
@@ -102,25 +107,23 @@ __CPROVER_ensures(self->s == NULL && self->len == 0 && self->size == 0 && __CPRO
 ;
 
 spif_bool_t spif_str_init_from_ptr(spif_str_t self, spif_charptr_t old)
-__CPROVER_requires(__CPROVER_w_ok(self, sizeof(spif_const_str_t)))
+__CPROVER_requires(self != NULL)
 __CPROVER_requires(VCSTR_OK(old))
 __CPROVER_assigns(self->parent.cls, self->s, self->len, self->size)
 __CPROVER_ensures(__CPROVER_return_value == TRUE)
 __CPROVER_ensures(self->len >= 0 && VCSTR_LEN_IS(old, self->len) && self->size == self->len + 1)
 __CPROVER_ensures(__CPROVER_is_fresh(self->s, (size_t) self->size) && self->s[self->len] == 0)
-__CPROVER_ensures(!(vg_k < (size_t) self->len) || (self->s[vg_k] == old[vg_k] && old[vg_k] != 0))
+NET_CONTENT(__CPROVER_ensures(!(vg_k < (size_t) self->len) || (self->s[vg_k] == old[vg_k] && old[vg_k] != 0)))
 ;
 
 /* str.c:293  frees the buffer iff size != 0 and resets to (NULL,0,0) */
 spif_bool_t spif_str_done(spif_str_t self)
-__CPROVER_requires(__CPROVER_rw_ok(self, sizeof(spif_const_str_t)))
-__CPROVER_requires(self->size == 0 || self->s == NULL || __CPROVER_r_ok(self->s, 0))
+__CPROVER_requires(self != NULL && (self->size == 0 || self->s != NULL))
 __CPROVER_assigns(self->s, self->len, self->size)
 __CPROVER_frees(self->s)
 __CPROVER_ensures(__CPROVER_return_value == TRUE)
 __CPROVER_ensures(__CPROVER_old(self->size) == 0 ||
-                  (self->s == NULL && self->len == 0 && self->size == 0 &&
-                   (__CPROVER_old(self->s) == NULL || __CPROVER_was_freed(__CPROVER_old(self->s)))))
+                  (self->s == NULL && self->len == 0 && self->size == 0))
 __CPROVER_ensures(__CPROVER_old(self->size) != 0 ||
                   (self->s == __CPROVER_old(self->s) && self->len == __CPROVER_old(self->len) && self->size == 0))
 ;
@@ -137,56 +140,112 @@ __CPROVER_ensures(__CPROVER_old(self->size) == 0 || __CPROVER_old(self->s) == NU
                   __CPROVER_was_freed(__CPROVER_old(self->s)))
 ;
 
-/* str.c:368/383/398 on the non-empty state.  `other` is left untouched (no assigns on it). */
+/* str.c:368/383/398 on the non-empty state (s != NULL, NUL at len < size).  `other` is left untouched.
+ *
+ * Two renderings, chosen per unit:
+ *
+ * NET_STR_VIEW (spif_url_unparse): the buffer is represented by the GHOST VIEW
+ *      vg_view_of   the str object whose text is being observed
+ *      vg_view      the byte at index vg_k of that text (meaningful while vg_k < len)
+ *   and the contracts say how an append changes length and view; the buffer pointer is re-seated to
+ *   some non-NULL value.  This is what C01 proves about append* read through the representation
+ *   relation  vg_view == self->s[vg_k]  (old text kept, appended text copied); because vg_k is
+ *   arbitrary it is the whole text.  The byte-array form of the same contracts (below) made a chain
+ *   of 16 calls a 14M-variable SAT instance (>10 GB): every call re-seats s, so every later access
+ *   case-splits over all earlier buffers.  The frees clause names the old buffer (REALLOC).
+ *
+ * default (byte-array form): the new buffer is a fresh object of `size` bytes, terminated, bytes by
+ *   ghost index; re-allocated exactly when str.c calls REALLOC. */
+#ifdef NET_STR_VIEW
+spif_str_t vg_view_of;
+spif_char_t vg_view;
+#define NET_VIEW_ASSIGNS vg_view
+
 spif_bool_t spif_str_append(spif_str_t self, spif_str_t other)
-__CPROVER_requires(__CPROVER_rw_ok(self, sizeof(spif_const_str_t)) && self->s != NULL)
-__CPROVER_requires(self->len >= 0 && self->len < self->size && self->size <= VCAP && __CPROVER_rw_ok(self->s, (size_t) self->size))
-__CPROVER_requires(NSTR_STILL_OK(other) && other->size <= VCAP && !__CPROVER_same_object(self->s, other->s))
+__CPROVER_requires(self != NULL && self->s != NULL && self->len >= 0 && self->len < self->size && self->size <= VCAP)
+__CPROVER_requires(other != NULL && other->s != NULL && other->len >= 0 && other->len < other->size && other->size <= VCAP)
+__CPROVER_requires(other->s[other->len] == 0 && self == vg_view_of)
+__CPROVER_assigns(self->s, self->len, self->size, vg_view)
+NET_FREES(__CPROVER_frees(self->s))
+__CPROVER_ensures(__CPROVER_return_value == TRUE && self->s != NULL)
+__CPROVER_ensures(self->len == __CPROVER_old(self->len) + other->len)
+__CPROVER_ensures(self->size == __CPROVER_old(self->size) + ((other->len != 0) ? other->size - 1 : 0))
+__CPROVER_ensures(vg_view == ((vg_k >= (size_t) __CPROVER_old(self->len) && vg_k < (size_t) self->len)
+                              ? other->s[vg_k - (size_t) __CPROVER_old(self->len)] : __CPROVER_old(vg_view)))
+;
+spif_bool_t spif_str_append_char(spif_str_t self, spif_char_t c)
+__CPROVER_requires(self != NULL && self->s != NULL && self->len >= 0 && self->len < self->size && self->size < VCAP)
+__CPROVER_requires(self == vg_view_of)
+__CPROVER_assigns(self->s, self->len, self->size, vg_view)
+NET_FREES(__CPROVER_frees(self->s))
+__CPROVER_ensures(__CPROVER_return_value == TRUE && self->s != NULL)
+__CPROVER_ensures(self->len == __CPROVER_old(self->len) + 1)
+__CPROVER_ensures(self->size == __CPROVER_old(self->size) + ((__CPROVER_old(self->size) <= self->len) ? 1 : 0))
+__CPROVER_ensures(vg_view == ((vg_k == (size_t) __CPROVER_old(self->len)) ? c : __CPROVER_old(vg_view)))
+;
+spif_bool_t spif_str_append_from_ptr(spif_str_t self, spif_charptr_t other)
+__CPROVER_requires(self != NULL && self->s != NULL && self->len >= 0 && self->len < self->size && self->size <= VCAP)
+__CPROVER_requires(VCSTR_OK(other) && self == vg_view_of)
+__CPROVER_assigns(self->s, self->len, self->size, vg_view)
+NET_FREES(__CPROVER_frees(self->s))
+__CPROVER_ensures(__CPROVER_return_value == TRUE && self->s != NULL)
+__CPROVER_ensures(self->len >= __CPROVER_old(self->len) && VCSTR_LEN_IS(other, self->len - __CPROVER_old(self->len)))
+__CPROVER_ensures(self->size == __CPROVER_old(self->size) + (self->len - __CPROVER_old(self->len)))
+__CPROVER_ensures(vg_view == ((vg_k >= (size_t) __CPROVER_old(self->len) && vg_k < (size_t) self->len)
+                              ? other[vg_k - (size_t) __CPROVER_old(self->len)] : __CPROVER_old(vg_view)))
+;
+#else
+spif_bool_t spif_str_append(spif_str_t self, spif_str_t other)
+__CPROVER_requires(self != NULL && self->s != NULL && self->len >= 0 && self->len < self->size && self->size <= VCAP)
+__CPROVER_requires(other != NULL && other->s != NULL && other->len >= 0 && other->len < other->size && other->size <= VCAP)
+__CPROVER_requires(other->s[other->len] == 0 && !__CPROVER_same_object(self->s, other->s))
 __CPROVER_assigns(self->s, self->len, self->size)
-__CPROVER_frees(self->s)
+__CPROVER_frees(other->len != 0: self->s)
 __CPROVER_ensures(__CPROVER_return_value == TRUE)
 __CPROVER_ensures(self->len == __CPROVER_old(self->len) + other->len)
-__CPROVER_ensures(self->size > self->len && self->size <= __CPROVER_old(self->size) + other->size)
-__CPROVER_ensures(other->len != 0 || (self->s == __CPROVER_old(self->s) && self->size == __CPROVER_old(self->size)))
-__CPROVER_ensures(other->len == 0 || __CPROVER_is_fresh(self->s, (size_t) self->size))
+__CPROVER_ensures(self->size == __CPROVER_old(self->size) + ((other->len != 0) ? other->size - 1 : 0))
+__CPROVER_ensures((other->len != 0 && __CPROVER_is_fresh(self->s, (size_t) self->size)) ||
+                  (other->len == 0 && self->s == __CPROVER_old(self->s)))
 __CPROVER_ensures(self->s[self->len] == 0)
-__CPROVER_ensures(!(vg_k < (size_t) __CPROVER_old(self->len)) ||
-                  self->s[vg_k] == __CPROVER_old(NSTR_BYTE_OR_FIRST(self, vg_k)))
-__CPROVER_ensures(!(vg_k >= (size_t) __CPROVER_old(self->len) && vg_k < (size_t) self->len) ||
-                  self->s[vg_k] == other->s[vg_k - (size_t) __CPROVER_old(self->len)])
+NET_CONTENT(__CPROVER_ensures(!(vg_k < (size_t) __CPROVER_old(self->len)) ||
+                  self->s[vg_k] == __CPROVER_old(NSTR_BYTE_OR_FIRST(self, vg_k))))
+NET_CONTENT(__CPROVER_ensures(!(vg_k >= (size_t) __CPROVER_old(self->len) && vg_k < (size_t) self->len) ||
+                  self->s[vg_k] == other->s[vg_k - (size_t) __CPROVER_old(self->len)]))
 ;
 
 spif_bool_t spif_str_append_char(spif_str_t self, spif_char_t c)
-__CPROVER_requires(__CPROVER_rw_ok(self, sizeof(spif_const_str_t)) && self->s != NULL)
-__CPROVER_requires(self->len >= 0 && self->len < self->size && self->size < VCAP && __CPROVER_rw_ok(self->s, (size_t) self->size))
-__CPROVER_assigns(self->s, self->len, self->size, __CPROVER_object_whole(self->s))
-__CPROVER_frees(self->s)
+__CPROVER_requires(self != NULL && self->s != NULL && self->len >= 0 && self->len < self->size && self->size < VCAP)
+__CPROVER_assigns(self->s, self->len, self->size)
+__CPROVER_assigns(self->size > self->len + 1: __CPROVER_object_whole(self->s))
+__CPROVER_frees(self->size <= self->len + 1: self->s)
 __CPROVER_ensures(__CPROVER_return_value == TRUE)
 __CPROVER_ensures(self->len == __CPROVER_old(self->len) + 1)
-__CPROVER_ensures(self->size > self->len && self->size <= __CPROVER_old(self->size) + 1)
-__CPROVER_ensures(__CPROVER_rw_ok(self->s, (size_t) self->size))
+__CPROVER_ensures((__CPROVER_old(self->size) <= self->len && self->size == __CPROVER_old(self->size) + 1 &&
+                   __CPROVER_is_fresh(self->s, (size_t) self->size)) ||
+                  (__CPROVER_old(self->size) > self->len && self->size == __CPROVER_old(self->size) &&
+                   self->s == __CPROVER_old(self->s)))
 __CPROVER_ensures(self->s[self->len] == 0 && self->s[self->len - 1] == c)
-__CPROVER_ensures(!(vg_k < (size_t) __CPROVER_old(self->len)) ||
-                  self->s[vg_k] == __CPROVER_old(NSTR_BYTE_OR_FIRST(self, vg_k)))
+NET_CONTENT(__CPROVER_ensures(!(vg_k < (size_t) __CPROVER_old(self->len)) ||
+                  self->s[vg_k] == __CPROVER_old(NSTR_BYTE_OR_FIRST(self, vg_k))))
 ;
 
 spif_bool_t spif_str_append_from_ptr(spif_str_t self, spif_charptr_t other)
-__CPROVER_requires(__CPROVER_rw_ok(self, sizeof(spif_const_str_t)) && self->s != NULL)
-__CPROVER_requires(self->len >= 0 && self->len < self->size && self->size <= VCAP && __CPROVER_rw_ok(self->s, (size_t) self->size))
+__CPROVER_requires(self != NULL && self->s != NULL && self->len >= 0 && self->len < self->size && self->size <= VCAP)
 __CPROVER_requires(VCSTR_OK(other) && !__CPROVER_same_object(self->s, other))
 __CPROVER_assigns(self->s, self->len, self->size)
-__CPROVER_frees(self->s)
+__CPROVER_frees(other[0] != 0: self->s)
 __CPROVER_ensures(__CPROVER_return_value == TRUE)
 __CPROVER_ensures(self->len >= __CPROVER_old(self->len) && VCSTR_LEN_IS(other, self->len - __CPROVER_old(self->len)))
-__CPROVER_ensures(self->size > self->len && self->size == __CPROVER_old(self->size) + (self->len - __CPROVER_old(self->len)))
-__CPROVER_ensures(self->len != __CPROVER_old(self->len) || self->s == __CPROVER_old(self->s))
-__CPROVER_ensures(self->len == __CPROVER_old(self->len) || __CPROVER_is_fresh(self->s, (size_t) self->size))
+__CPROVER_ensures(self->size == __CPROVER_old(self->size) + (self->len - __CPROVER_old(self->len)))
+__CPROVER_ensures((other[0] != 0 && __CPROVER_is_fresh(self->s, (size_t) self->size)) ||
+                  (other[0] == 0 && self->s == __CPROVER_old(self->s)))
 __CPROVER_ensures(self->s[self->len] == 0)
-__CPROVER_ensures(!(vg_k < (size_t) __CPROVER_old(self->len)) ||
-                  self->s[vg_k] == __CPROVER_old(NSTR_BYTE_OR_FIRST(self, vg_k)))
-__CPROVER_ensures(!(vg_k >= (size_t) __CPROVER_old(self->len) && vg_k < (size_t) self->len) ||
-                  self->s[vg_k] == other[vg_k - (size_t) __CPROVER_old(self->len)])
+NET_CONTENT(__CPROVER_ensures(!(vg_k < (size_t) __CPROVER_old(self->len)) ||
+                  self->s[vg_k] == __CPROVER_old(NSTR_BYTE_OR_FIRST(self, vg_k))))
+NET_CONTENT(__CPROVER_ensures(!(vg_k >= (size_t) __CPROVER_old(self->len) && vg_k < (size_t) self->len) ||
+                  self->s[vg_k] == other[vg_k - (size_t) __CPROVER_old(self->len)]))
 ;
+#endif
 
 /* str.c:340/443: three-way result of strcmp on the two texts, NULL before every object.
  * ASSUMES (with C01/C05 of agent str): strcmp is a total order on NUL-terminated texts. */
